@@ -50,9 +50,9 @@ const (
 )
 
 type DataOptions struct {
-	MaxEntities int
-	IDs         IDAlphabet
-	NullChance  int // 1/n for nullable positions (0 = never)
+	MaxEntities  int
+	IDs          IDAlphabet
+	NullChance   int  // 1/n for nullable positions (0 = never)
 	NullObjElems bool // allow null elements inside lists of objects (hits an executor defect on stitch paths)
 }
 
